@@ -360,6 +360,12 @@ def obligations(tier):
                 out += specs("C04.eq.fix", [cfg], ob_eq_fix, 1)
                 if d <= 3:
                     out += specs("C04.closures", [cfg], ob_closures, 1)
+    # measurement processes with a multi-axis outcome shape (number of outcomes != shape[0])
+    for shape in tiers(tier, [[1, 2], [2, 2]], [[1, 2], [2, 1], [2, 2], [3, 2]]):
+        m = shape[0] * shape[1]
+        cfg = {"typ": "mprocess", "sys": "Q1", "m": m, "shape": shape}
+        out += specs("C04.eq", [cfg], c03.with_shape(ob_eq), 3)
+        out += specs("C04.eq.fix", [cfg], c03.with_shape(ob_eq_fix), 1)
     for typ in TYPES:
         for s in tiers(tier, ["Q1", "T1"], ["Q1", "T1", "Q2"]):
             d = DIMS[s]
